@@ -341,7 +341,9 @@ def _get_centering_constraint_from_matrix(matrix: numpy.ndarray) -> numpy.ndarra
     Args:
         matrix: The 2-d array design matrix.
     """
-    return matrix.mean(axis=0).reshape((1, matrix.shape[1]))
+    # Null rows (nulls in the data, or values removed by `extrapolation="na"`)
+    # are dropped downstream and must not poison the constraint.
+    return numpy.nanmean(matrix, axis=0).reshape((1, matrix.shape[1]))
 
 
 def _absorb_constraints(
@@ -571,9 +573,11 @@ def cubic_spline(  # pylint: disable=dangerous-default-value  # always replaced 
         if constraints is not None:
             if centering_constraint:
                 # Now we can compute centering constraints
-                constraints_arr = _get_centering_constraint_from_matrix(
-                    _get_free_cubic_spline_matrix(x, all_knots, cyclic=cyclic)
-                )
+                free_mat = _get_free_cubic_spline_matrix(x, all_knots, cyclic=cyclic)
+                if extrapolation is SplineExtrapolation.ZERO:
+                    # Center the matrix that is actually returned (see below).
+                    free_mat[below_lower | above_upper] = 0.0
+                constraints_arr = _get_centering_constraint_from_matrix(free_mat)
             df_before_constraints = all_knots.size
             if cyclic:
                 df_before_constraints -= 1
